@@ -11,6 +11,7 @@ import DtsVerif.Drv.TimeCoords
 import DtsVerif.Drv.Chunk
 import DtsVerif.Drv.Readers
 import DtsVerif.Drv.Design
+import DtsVerif.Drv.Scatter
 /-! Line-protocol driver: one JSON request per line on stdin, one JSON reply per line on stdout. -/
 open Lean DtsVerif.Drv
 
@@ -25,6 +26,7 @@ def dispatch (op : String) (j : Json) : R Json :=
   | "calib" => opCalib j
   | "layout" => opLayout j
   | "design" => opDesign j
+  | "scatter" => opScatter j
   | "calib.temps" => opTemps j
   | "propagate" => opPropagate j
   | "guard" => opGuard j
